@@ -169,16 +169,14 @@ def run_all(ctx, scenarios, tag, procs=14, shard_bytes=5_000_000, shard_traces=6
         check_shape(sc["id"], tr["events"][1:])
         evs = [tla_cfg(sc, texts)] + [slim_event(e) for e in tr["events"][1:]]
         docs.append(json.dumps({"id": sc["id"], "events": evs}))
-    shard_traces = min(shard_traces, max(1, -(-len(docs) // procs)))          # enough shards to keep every TLC process busy
-    shards, cur, size = [], [], 0
-    for i, d in enumerate(docs):
-        if cur and (size + len(d) > shard_bytes or len(cur) >= shard_traces):
-            shards.append(cur)
-            cur, size = [], 0
-        cur.append(i)
-        size += len(d)
-    if cur:
-        shards.append(cur)
+    # shards balanced by trace size (longest first into the lightest shard): one heavy session does not set the wall-clock time
+    nshards = max(1, min(len(docs), max(procs, -(-len(docs) // shard_traces), -(-sum(len(d) for d in docs) // shard_bytes))))
+    bins = [[0, []] for _ in range(nshards)]
+    for i in sorted(range(len(docs)), key=lambda i: -len(docs[i])):
+        b = min(bins, key=lambda b: b[0])
+        b[0] += len(docs[i])
+        b[1].append(i)
+    shards = [sorted(b[1]) for b in bins if b[1]]
     paths = []
     for k, idxs in enumerate(shards):
         p = os.path.join(tdir, "%s_%s_%d.json" % (ctx.pid, tag, k))
@@ -196,6 +194,9 @@ def run_all(ctx, scenarios, tag, procs=14, shard_bytes=5_000_000, shard_traces=6
             if not res.ok:
                 raise core.Machinery("TraceSession aborted on %s: %s" % (p, res.out[-2500:]))
             ctx.add_tlc(res, "R3")
+            if res.wall > 45 and os.environ.get("VERIF_TIMING"):
+                import sys
+                print("TIMING shard %.0fs: %s" % (res.wall, [scenarios[i]["id"] for i in idxs]), file=sys.stderr)
             for _, tid, verdict, at in res.tuples("VERDICT"):
                 verdicts[tid] = (verdict, at)
             os.remove(p)
